@@ -179,6 +179,15 @@ def run(ck: Check) -> int:
             sr.distinct = sr.evaluations
         ck.search('shared-dir_fd-threads', s_fd)
 
+        def s_park(sr):
+            sr.note = ('150 half-consumed iglob / Path.glob iterators kept alive under RLIMIT_NOFILE = 64, then glob again: same answers as before '
+                       '(added after seeded change C19h: the walker iterated scandir lazily, a suspended iterator kept one descriptor per level '
+                       'open, later calls hit EMFILE and silently returned nothing); in a subprocess')
+            sr.evaluations = K9.parked_iterators(w, lambda what, inp, exp, obs: ck.report(
+                Failing(what, inp, exp, obs, site='wcmatch/glob.py:Glob._glob_dir / _iter'), None))
+            sr.distinct = 1
+        ck.search('parked-iterators', s_park)
+
         def s_obj(sr):
             sr.note = ('WcMatcher (fnmatch.compile / glob.compile) and the inner WcRegexp: equal and hash-equal when built twice (cold '
                        'cache in between), pickle / copy / deepcopy round trips equal with unchanged behaviour, setattr raises, reuse '
